@@ -92,6 +92,10 @@ class C07(Prop):
                 # several categorical features sharing a vocabulary, each with rare modalities (default group)
                 c = B.gen_case(rng, cls, force={"kind": "cat", "cflavour": "rare", "nfeat": rng.choice([2, 3]),
                                                 "n": rng.choice([120, 200, 400])})
+            elif i % 7 == 2 and cls != "QuantitativeDiscretizer":
+                # numeric-coded qualitative feature WITH missing values (StringDiscretizer path works in place)
+                c = B.gen_case(rng, cls, force={"kind": "cat", "cflavour": rng.choice(["ints", "floats", "mixed"]),
+                                                "nan_share": rng.choice([0.05, 0.15])})
             else:
                 c = B.gen_case(rng, cls)
             c["json"] = False
